@@ -5,7 +5,7 @@ import ast
 import alg
 from alg import Expr, ZERO, ONE
 from front import AnalysisError, dotted_name
-from interp import Interp, Opaque, Tup, Arr, SymArr, Unknown, PyList, explore
+from interp import Interp, Opaque, Tup, Arr, SymArr, Unknown, PyList, explore, FStr, raise_exc
 from report import Result, Ob, eq_ob, req_ob
 import config_model as CM
 import rules_solver as RS
@@ -44,6 +44,8 @@ def deep_atoms(v, acc=None):
                 _atoms_lossless(d, acc)
         if isinstance(v, SymArr):
             v.sym.atoms(True, acc)
+        for e in (v.meta.get("elements") or ()):
+            deep_atoms(e, acc)
     elif isinstance(v, Tup):
         for x in v.items:
             deep_atoms(x[1] if (v.kind == "dict" and isinstance(x, tuple)) else x, acc)
@@ -241,174 +243,269 @@ def _method(c, name):
     raise AnalysisError("method GreensFunctionCache.%s not found" % name)
 
 
-def compute_key_obligations(P):
-    obs = []
-    m, c = _cls(P)
-    fn = _method(c, "_compute_key")
-    site = "src/bldfm/cache.py::GreensFunctionCache._compute_key"
-    params = [a.arg for a in fn.args.args if a.arg != "self"] + [a.arg for a in fn.args.kwonlyargs]
-    # names hashed: arguments of *.update(...) calls, with loop targets resolved to their iterables
-    derived = {}
-    for n in ast.walk(fn):
-        if isinstance(n, ast.For):
-            src = {x.id for x in ast.walk(n.iter) if isinstance(x, ast.Name)}
-            for t in ast.walk(n.target):
-                if isinstance(t, ast.Name):
-                    derived.setdefault(t.id, set()).update(src)
-        if isinstance(n, ast.Assign):
-            src = {x.id for x in ast.walk(n.value) if isinstance(x, ast.Name)}
-            for t in n.targets:
-                for x in ast.walk(t):
-                    if isinstance(x, ast.Name):
-                        derived.setdefault(x.id, set()).update(src)
-    hashed = set()
-    hobj = set()
-    for n in ast.walk(fn):
-        if isinstance(n, ast.Call) and isinstance(n.func, ast.Attribute) and n.func.attr == "update":
-            if isinstance(n.func.value, ast.Name):
-                hobj.add(n.func.value.id)
-            for a in n.args:
-                for x in ast.walk(a):
-                    if isinstance(x, ast.Name):
-                        hashed.add(x.id)
-    closure = set(hashed)
-    for _ in range(4):
-        for nm in list(closure):
-            closure |= derived.get(nm, set())
+def _key_values(params):
+    elems = {}
+    vals = {}
     for p in params:
-        obs.append(req_ob("R-KEY-COMPLETE", site, "key argument %s is fed to the hash" % p, p in closure, key={"param": p}))
-    rets = [n for n in ast.walk(fn) if isinstance(n, ast.Return) and n.value is not None]
-    okr = bool(rets) and all(isinstance(r.value, ast.Call) and isinstance(r.value.func, ast.Attribute) and r.value.func.attr in ("hexdigest", "digest")
-                             and isinstance(r.value.func.value, ast.Name) and r.value.func.value.id in hobj for r in rets)
-    obs.append(req_ob("R-KEY-COMPLETE", site, "the key is the digest of the hash that received the arguments", okr))
-    strong = any(isinstance(n, ast.Call) and (dotted_name(n.func) or "").split(".")[-1] in ("sha256", "sha512", "sha384", "blake2b", "sha3_256") for n in ast.walk(fn))
-    obs.append(req_ob("R-KEY-COMPLETE", site, "a collision-resistant hash is used", strong))
-    return obs, params
+        if p == "profiles":
+            items = [SymArr("prof_%s" % q, (alg.sym("n_z", "pos"),), "f") for q in ("u", "v", "Kx", "Ky", "Kz")]
+            vals[p] = Tup(items)
+            for q, it in zip(("u", "v", "Kx", "Ky", "Kz"), items):
+                elems["profiles[%s]" % q] = it
+        elif p in ("z",):
+            vals[p] = SymArr("key_z", (alg.sym("n_z", "pos"),), "f")
+            elems[p] = vals[p]
+        elif p in ("domain", "modes", "meas_pt"):
+            a, b = alg.sym("key_%s_0" % p), alg.sym("key_%s_1" % p)
+            vals[p] = Tup([a, b])
+            elems[p + "[0]"] = a
+            elems[p + "[1]"] = b
+        elif p == "precision":
+            vals[p] = "double"
+        elif p == "extra":
+            items = [alg.sym("key_extra_%d" % i) for i in range(4)]
+            vals[p] = Tup(items)
+            for i, it in enumerate(items):
+                elems["extra[%d]" % i] = it
+        else:
+            vals[p] = alg.sym("key_" + p)
+            elems[p] = vals[p]
+    return vals, elems
 
 
-def _key_call(fn):
-    for n in ast.walk(fn):
-        if isinstance(n, ast.Call) and isinstance(n.func, ast.Attribute) and n.func.attr == "_compute_key":
-            return n
-    return None
+
+class DigestStr(str):
+    """the hex digest of a modelled hash object: a string that remembers what was fed to the hash"""
+
+    def __new__(cls, fed, algo):
+        o = str.__new__(cls, "entry-key")
+        o.fed, o.algo = list(fed), algo
+        return o
 
 
-def getput_obligations(P, key_params):
-    obs = []
-    m, c = _cls(P)
-    get, put = _method(c, "get"), _method(c, "put")
-    sg, sp = "src/bldfm/cache.py::GreensFunctionCache.get", "src/bldfm/cache.py::GreensFunctionCache.put"
-    for fn, site in ((get, sg), (put, sp)):
-        call = _key_call(fn)
-        if call is None:
-            obs.append(req_ob("R-KEY-SAME", site, "the key is computed by _compute_key", False))
-            continue
-        bound = {}
-        for k, a in zip(key_params, call.args):
-            bound[k] = ast.unparse(a)
-        for kw in call.keywords:
-            if kw.arg:
-                bound[kw.arg] = ast.unparse(kw.value)
-        own = {a.arg for a in fn.args.args} | {a.arg for a in fn.args.kwonlyargs}
-        for k in key_params:
-            ok = bound.get(k) == k and k in own
-            obs.append(req_ob("R-KEY-SAME", site, "passes its own argument %s as key argument %s" % (k, k), ok, detail=None if ok else "passes %r" % bound.get(k), key={"param": k}))
-    # same file naming in get and put
-    def path_exprs(fn):
-        out = []
-        for n in ast.walk(fn):
-            if isinstance(n, ast.Assign) and isinstance(n.value, ast.BinOp) and isinstance(n.value.op, ast.Div) and "cache_dir" in ast.unparse(n.value.left):
-                out.append(ast.unparse(n.value))
+STRONG_HASHES = ("sha256", "sha512", "sha384", "blake2b", "blake2s", "sha3_256", "sha3_512", "sha224", "sha3_384")
+WEAK_HASHES = ("md5", "sha1")
+# what reading a truncated / damaged / foreign .npz file can raise (numpy.load and member access)
+FAULTS = ("OSError", "ValueError", "EOFError", "BadZipFile", "KeyError", "error", "UnpicklingError")
+
+
+def _find_digests(v, out, depth=0):
+    if isinstance(v, DigestStr):
+        out.append(v)
+    elif depth > 6:
         return out
+    elif isinstance(v, FStr):
+        for p in v.parts:
+            _find_digests(p, out, depth + 1)
+    elif isinstance(v, Tup):
+        for x in v.items:
+            _find_digests(x[1] if isinstance(x, tuple) else x, out, depth + 1)
+    elif isinstance(v, Opaque) and "of" in v.attrs:
+        _find_digests(v.attrs["of"], out, depth + 1)
+    return out
 
-    pg, pp = path_exprs(get), path_exprs(put)
-    obs.append(req_ob("R-KEY-SAME", sg, "lookup and store derive the entry's file name from the key in the same way", bool(pg) and bool(pp) and pg[0] in pp, detail="get: %s; put: %s" % (pg, pp)))
-    # R-CORRUPT-MISS
-    loads = []
-    parents = {}
-    for n in ast.walk(get):
-        for ch in ast.iter_child_nodes(n):
-            parents[ch] = n
-    loaded_names = set()
-    for n in ast.walk(get):
-        if isinstance(n, ast.Call) and (dotted_name(n.func) or "").split(".")[-1] in ("load", "open"):
-            loads.append(n)
-            p = parents.get(n)
-            while p is not None and not isinstance(p, (ast.Assign, ast.withitem, ast.With)):
-                p = parents.get(p)
-            if isinstance(p, ast.Assign):
-                for t in p.targets:
-                    if isinstance(t, ast.Name):
-                        loaded_names.add(t.id)
-            if isinstance(p, ast.withitem) and isinstance(p.optional_vars, ast.Name):
-                loaded_names.add(p.optional_vars.id)
-    reads = list(loads)
-    for n in ast.walk(get):
-        if isinstance(n, ast.Subscript) and isinstance(n.value, ast.Name) and n.value.id in loaded_names and isinstance(n.ctx, ast.Load):
-            reads.append(n)
-    obs.append(req_ob("R-CORRUPT-MISS", sg, "the hit path reads the entry with np.load", bool(loads)))
 
-    def guarded(n):
-        p = parents.get(n)
-        child = n
-        while p is not None:
-            if isinstance(p, ast.Try) and child in p.body:
-                for h in p.handlers:
-                    broad = h.type is None or (dotted_name(h.type) in ("Exception", "BaseException"))
-                    if isinstance(h.type, ast.Tuple):
-                        names = {dotted_name(e) for e in h.type.elts}
-                        broad = {"Exception"} <= names or {"OSError", "ValueError", "EOFError", "KeyError"} <= {x.split(".")[-1] for x in names if x} and any("BadZipFile" in (x or "") for x in names)
-                    returns_miss = any(isinstance(s, ast.Return) and (s.value is None or (isinstance(s.value, ast.Constant) and s.value.value is None)) for s in ast.walk(h))
-                    reraises = any(isinstance(s, ast.Raise) for s in ast.walk(h))
-                    if broad and returns_miss and not reraises:
-                        return True
-            child = p
-            p = parents.get(p)
+def _mentions(v, text, depth=0):
+    if isinstance(v, FStr):
+        return any(_mentions(p, text, depth + 1) for p in v.parts)
+    if isinstance(v, str):
+        return v == text
+    if depth > 6:
         return False
-
-    for n in reads:
-        what = "np.load" if isinstance(n, ast.Call) else "read of entry member %s" % ast.unparse(n)
-        obs.append(req_ob("R-CORRUPT-MISS", sg, "%s (line %d) is inside a handler that turns any failure into a miss" % (what, n.lineno), guarded(n), key={"read": what}))
-    # miss value
-    rets = [n for n in ast.walk(get) if isinstance(n, ast.Return)]
-    has_none = any(r.value is None or (isinstance(r.value, ast.Constant) and r.value.value is None) for r in rets)
-    obs.append(req_ob("R-CORRUPT-MISS", sg, "a miss is reported as None", has_none))
-    return obs
+    if isinstance(v, Tup):
+        return any(_mentions(x[1] if isinstance(x, tuple) else x, text, depth + 1) for x in v.items)
+    if isinstance(v, Opaque) and "of" in v.attrs:
+        return _mentions(v.attrs["of"], text, depth + 1)
+    return False
 
 
-def roundtrip_obligation(P):
-    """what a hit returns is field for field what put stored (abstract composition of put and get)"""
-    m, c = _cls(P)
-    site = "src/bldfm/cache.py::GreensFunctionCache (put then get)"
-    saved = {}
+def psig(v):
+    """signature of a path / key value, digests by what was hashed"""
+    if isinstance(v, DigestStr):
+        return "digest[%s](%s)" % (v.algo, ",".join(sig(x) for x in v.fed))
+    if isinstance(v, FStr):
+        return "f(" + ",".join(psig(p) for p in v.parts) + ")"
+    if isinstance(v, Tup):
+        return "(" + ",".join(psig(x) for x in v.items) + ")"
+    if isinstance(v, Opaque):
+        return "Opaque(%s:%s)" % (v.name, psig(v.attrs["of"]) if "of" in v.attrs else "")
+    return sig(v)
 
-    def savez(I, args, kwargs, node):
-        saved.update(kwargs)
-        saved["__positional__"] = list(args[1:])
-        return None
 
-    def load(I, args, kwargs, node):
-        return Opaque("npz", {"items": {k: v for k, v in saved.items() if not k.startswith("__")}, "unpack": []})
+class EntryModel:
+    """put and get of GreensFunctionCache interpreted with a recording hash, a recording np.savez and an np.load that
+    returns what was saved (or raises an injected fault).  Nothing here depends on helper names inside the class."""
 
-    def replace(I, args, kwargs, node):
-        return None
+    def __init__(self, P):
+        self.P = P
+        self.m, self.c = _cls(P)
+        self.fn_put, self.fn_get = _method(self.c, "put"), _method(self.c, "get")
+        self.gx, self.gy, self.gz, self.conc, self.flx = (alg.sym(n) for n in ("grid_X", "grid_Y", "grid_Z", "conc_field", "flx_field"))
+        self.payload = {a for e in (self.gx, self.gy, self.gz, self.conc, self.flx) for a in e.atoms(True)}
+        gparams = [a.arg for a in self.fn_get.args.args if a.arg != "self"]
+        self.vals, self.elems = _key_values(gparams)
+        self.gparams = gparams
+        special = {"grid": Tup([self.gx, self.gy, self.gz]), "conc": self.conc, "flx": self.flx}
+        self.putargs = [special[a.arg] if a.arg in special else self.vals[a.arg] if a.arg in self.vals else alg.sym("k_" + a.arg)
+                        for a in self.fn_put.args.args if a.arg != "self"]
+        self.put_missing = [a.arg for a in self.fn_put.args.args if a.arg not in special and a.arg != "self" and a.arg not in self.vals]
+        self.getargs = [self.vals[p] for p in gparams]
+        self.saved = {}
+        self.save_paths, self.load_paths = [], []
 
-    selfo = Opaque("cacheobj", {"__class__": (m, c), "cache_dir": Opaque("Path")})
-    gx, gy, gz, conc, flx = (alg.sym(n) for n in ("grid_X", "grid_Y", "grid_Z", "conc_field", "flx_field"))
-    keyargs = [alg.sym("k_%d" % i) for i in range(6)] + ["double"]
-    stubs = {"numpy.savez": savez, "numpy.savez_compressed": savez, "numpy.load": load, "os.replace": replace, "os.rename": replace}
-    fn_put, fn_get = _method(c, "put"), _method(c, "get")
-    res = explore(lambda dec: Interp(P, dec, stubs=stubs), lambda it: it.run_function(m, fn_put, [selfo] + keyargs + [Tup([gx, gy, gz]), conc, flx], {}))
+    # -- stubs
+    def stubs(self, fault=None):
+        M = self
+
+        def new_hash(algo):
+            def h(I, args, kwargs, node):
+                return Opaque("hashobj", {"fed": list(args), "algo": algo})
+            return h
+
+        def update(I, args, kwargs, node):
+            I.cur_callee.bound.attrs["fed"].extend(args)
+            return None
+
+        def digest(I, args, kwargs, node):
+            b = I.cur_callee.bound
+            return DigestStr(b.attrs["fed"], b.attrs["algo"])
+
+        def strof(I, args, kwargs, node):
+            return args[0] if isinstance(args[0], str) else Opaque("strof", {"of": args[0]})
+
+        def encode(I, args, kwargs, node):
+            b = I.cur_callee.bound
+            return Opaque("bytes", {"of": b.attrs.get("of") if isinstance(b, Opaque) else b})
+
+        def join(I, args, kwargs, node):
+            return Opaque("bytes", {"of": args[0]})
+
+        def savez(I, args, kwargs, node):
+            M.saved.clear()
+            M.saved.update(kwargs)
+            M.saved["__positional__"] = list(args[1:])
+            M.save_paths.append(args[0] if args else None)
+            return None
+
+        def load(I, args, kwargs, node):
+            M.load_paths.append(args[0] if args else None)
+            if fault is not None and fault[0] == "load":
+                raise raise_exc(fault[1], node, "np.load raises %s" % fault[1])
+            attrs = {"items": {k: v for k, v in M.saved.items() if not k.startswith("__")}, "unpack": []}
+            if fault is not None and fault[0] == "member":
+                attrs["fault"] = fault[1]
+            return Opaque("npz", attrs)
+
+        st = {"hashobj.update": update, "hashobj.hexdigest": digest, "hashobj.digest": digest, "str": strof, "repr": strof,
+              "strof.encode": encode, "encode": encode, "bytes.join": join, "join": join,
+              "numpy.savez": savez, "numpy.savez_compressed": savez, "numpy.load": load,
+              "os.replace": lambda I, a, k, n: None, "os.rename": lambda I, a, k, n: None,
+              "pathlib.Path": lambda I, a, k, n: Opaque("Path"), "Path.mkdir": lambda I, a, k, n: None}
+        for nm in STRONG_HASHES + WEAK_HASHES:
+            st["hashlib." + nm] = new_hash(nm)
+        return st
+
+    def fresh_self(self):
+        """the cache object as its constructor leaves it (constructor interpreted, so that instance state it sets up is seen)"""
+        o = Opaque("cacheobj", {"__class__": (self.m, self.c)})
+        init = None
+        for n in self.c.body:
+            if isinstance(n, ast.FunctionDef) and n.name == "__init__":
+                init = n
+        if init is not None:
+            explore(lambda dec: Interp(self.P, dec, stubs=self.stubs()), lambda it: it.run_function(self.m, init, [o, Opaque("Path")], {}))
+        o.attrs.setdefault("cache_dir", Opaque("Path"))
+        return o
+
+    def retained(self, o):
+        return [k for k, v in o.attrs.items() if k not in ("__class__", "cache_dir") and deep_atoms(v, set()) & self.payload]
+
+    def run_put(self, selfo):
+        st = self.stubs()
+        return explore(lambda dec: Interp(self.P, dec, stubs=st), lambda it: it.run_function(self.m, self.fn_put, [selfo] + self.putargs, {}))
+
+    def run_get(self, selfo, fault=None):
+        st = self.stubs(fault)
+        return explore(lambda dec: Interp(self.P, dec, stubs=st), lambda it: it.run_function(self.m, self.fn_get, [selfo] + self.getargs, {}))
+
+
+def cache_entry_obligations(P):
     obs = []
-    obs.append(req_ob("R-HIT", site, "put writes the five arrays by name", bool(res) and all(r.kind == "return" for r in res) and set(k for k in saved if not k.startswith("__")) >= {"conc", "flx"} or len([k for k in saved if not k.startswith("__")]) >= 5,
-                      detail="saved keys %s" % sorted(k for k in saved if not k.startswith("__"))))
-    res = explore(lambda dec: Interp(P, dec, stubs=stubs), lambda it: it.run_function(m, fn_get, [selfo] + keyargs, {}))
+    M = EntryModel(P)
+    sp = "src/bldfm/cache.py::GreensFunctionCache.put"
+    sg = "src/bldfm/cache.py::GreensFunctionCache.get"
+    sr = "src/bldfm/cache.py::GreensFunctionCache (put then get)"
+    # ---- store
+    selfo = M.fresh_self()
+    res = M.run_put(selfo)
+    okp = bool(res) and all(r.kind == "return" for r in res)
+    obs.append(req_ob("R-HIT", sp, "put returns on every path", okp, detail=None if okp else str([(r.kind, r.raise_desc) for r in res])))
+    names = sorted(k for k in M.saved if not k.startswith("__"))
+    stored = {a for k in names for a in deep_atoms(M.saved[k], set())} | {a for v in M.saved.get("__positional__", []) for a in deep_atoms(v, set())}
+    obs.append(req_ob("R-HIT", sp, "put writes the three grid arrays and both fields", M.payload <= stored, detail="saved members %s" % names))
+    keep = M.retained(selfo)
+    obs.append(req_ob("R-HIT-FRESH", sr, "after a store the cache object holds no reference to the caller's arrays (every later hit is read from disk)", not keep,
+                      detail=None if not keep else "attribute(s) %s of the cache object refer to the stored arrays" % keep))
+    put_paths = list(M.save_paths)
+    obs.append(req_ob("R-KEY-SAME", sp, "put writes one file", len({psig(p) for p in put_paths}) == 1, detail=str([psig(p) for p in put_paths])[:300]))
+    put_dig = _find_digests(Tup(put_paths), [])
+    # ---- lookup
+    selfo = M.fresh_self()
+    M.load_paths = []
+    res = M.run_get(selfo)
+    okg = bool(res) and all(r.kind == "return" for r in res)
+    obs.append(req_ob("R-HIT", sg, "get returns on every path when the entry is readable", okg, detail=None if okg else str([(r.kind, r.raise_desc) for r in res])))
+    keep = M.retained(selfo)
+    obs.append(req_ob("R-HIT-FRESH", sr, "after a hit the cache object holds no reference to the arrays it handed out (a caller that modifies its result cannot change a later hit)", not keep,
+                      detail=None if not keep else "attribute(s) %s of the cache object refer to the returned arrays" % keep))
     hits = [r for r in res if r.kind == "return" and r.value is not None]
-    exp = Tup([Tup([gx, gy, gz]), conc, flx])
+    misses = [r for r in res if r.kind == "return" and r.value is None]
+    exp = Tup([Tup([M.gx, M.gy, M.gz]), M.conc, M.flx])
     import props_wiring as pw
 
     ok = bool(hits) and all(pw.same_value(r.value, exp) for r in hits)
-    obs.append(req_ob("R-HIT", site, "a hit returns ((X, Y, Z), conc, flx) exactly as stored", ok, detail=None if ok else "get returns %s" % ([repr(r.value)[:200] for r in hits] or "nothing")))
+    obs.append(req_ob("R-HIT", sr, "a hit returns ((X, Y, Z), conc, flx) exactly as stored", ok, detail=None if ok else "get returns %s" % ([repr(r.value)[:200] for r in hits] or "nothing")))
+    obs.append(req_ob("R-CORRUPT-MISS", sg, "an absent entry is reported as None", bool(misses)))
+    get_paths = list(M.load_paths)
+    obs.append(req_ob("R-CORRUPT-MISS", sg, "the hit path reads the entry with np.load", bool(get_paths)))
+    get_dig = _find_digests(Tup(get_paths), [])
+    # ---- key: same file name at lookup and store, derived from a digest that received every key input
+    same = bool(put_paths) and bool(get_paths) and {psig(p) for p in get_paths} == {psig(p) for p in put_paths}
+    obs.append(req_ob("R-KEY-SAME", sr, "lookup and store address the same file: the path is the same function of the same hashed inputs", same,
+                      detail=None if same else "get: %s; put: %s" % ([psig(p)[:300] for p in get_paths], [psig(p)[:300] for p in put_paths])))
+    for who, digs, site in (("get", get_dig, sg), ("put", put_dig, sp)):
+        obs.append(req_ob("R-KEY-COMPLETE", site, "the entry's file name contains the digest of a hash object (%s)" % who, bool(digs)))
+        if not digs:
+            continue
+        d = digs[0]
+        obs.append(req_ob("R-KEY-COMPLETE", site, "a collision-resistant hash is used (%s)" % who, d.algo in STRONG_HASHES, detail="hashlib.%s" % d.algo))
+        got = set()
+        for v in d.fed:
+            deep_atoms(v, got)
+        for nm, e in sorted(M.elems.items()):
+            want = deep_atoms(e, set())
+            okp = bool(want & got)
+            obs.append(req_ob("R-KEY-COMPLETE", site, "%s reaches the hash (%s interpreted with a recording hash object)" % (nm, who), okp,
+                              detail=None if okp else "none of %s is among the values fed to the hash" % sorted(map(str, want))[:4], key={"elem": nm, "who": who}))
+        if "precision" in M.vals:
+            okpr = any(_mentions(v, "double") for v in d.fed)
+            obs.append(req_ob("R-KEY-COMPLETE", site, "precision reaches the hash (%s)" % who, okpr, key={"elem": "precision", "who": who}))
+    if M.put_missing:
+        obs.append(req_ob("R-KEY-SAME", sp, "put takes the same key inputs as get", False, detail="put parameters without a counterpart in get: %s" % M.put_missing))
+    # ---- unreadable entries: every failure of the read is a miss
+    members = names or ["X"]
+    for exc in FAULTS:
+        for point in ("load", "member"):
+            selfo = M.fresh_self()
+            res = M.run_get(selfo, fault=(point, exc))
+            reached = any(any(e[0] in ("caught",) for e in r.events) for r in res) or any(r.kind == "raise" for r in res)
+            bad = [r for r in res if r.kind != "return" or (r.value is not None and any(e[0] == "caught" for e in r.events))]
+            escaped = [r for r in res if r.kind == "raise"]
+            ok = not escaped and not bad
+            what = "np.load raising %s" % exc if point == "load" else "reading a member of the loaded file raising %s" % exc
+            obs.append(req_ob("R-CORRUPT-MISS", sg, "%s is reported as a miss" % what, ok if reached or not ok else None,
+                              detail=None if ok and reached else ("the exception escapes get: %s" % [r.raise_desc for r in escaped][:2] if escaped else "the fault point was not reached" if not reached else "a result is returned from a failed read"),
+                              key={"fault": exc, "point": point}))
     return obs
 
 
@@ -436,14 +533,11 @@ def check_C15(P, tier):
                      "their own arguments position by position and name the file identically; (R-CORRUPT-MISS) np.load and every member read on the hit path lie "
                      "inside a handler that catches Exception and returns the miss value, which covers every truncation point at once; (R-HIT) a hit returns, "
                      "field for field, what put stored (abstract composition of put and get) and the solver returns it untouched, a miss stores the returned result; "
-                     "(R-TRANSPARENT) a miss computes the no-cache result. Hash collisions and file-system semantics are trusted, not decided. An atomic rename is "
+                     "(R-HIT-FRESH) the cache object, with its constructor interpreted, retains no reference to stored or returned arrays after put or get; (R-TRANSPARENT) a miss computes the no-cache result. Hash collisions and file-system semantics are trusted, not decided. An atomic rename is "
                      "not required by the property once unreadable entries are misses, and is not demanded.")
     R.trusted = [TRUST]
     R.add(solver_cache_obligations(P))
-    o, params = compute_key_obligations(P)
-    R.add(o)
-    R.add(getput_obligations(P, params))
-    R.add(roundtrip_obligation(P))
+    R.add(cache_entry_obligations(P))
     R.add(make_cache_obligation(P))
     R.analysed = {"files": ["src/bldfm/cache.py", "src/bldfm/solver.py", "src/bldfm/interface.py"],
                   "functions": ["steady_state_transport_solver", "GreensFunctionCache._compute_key", "GreensFunctionCache.get", "GreensFunctionCache.put", "_make_cache"], "paths": 0}
